@@ -290,7 +290,10 @@ class Parser:
                             labels.append(self.expr())
                         self.expect(":")
                         arms.append((labels, self.statement()))
-                self.take()
+                end = self.take()
+                if not arms and dflt is None:
+                    # IEEE 1364-2001 A.6.7: case ( expression ) case_item { case_item } endcase - at least one item
+                    raise VerilogSyntaxError("line %d: case statement without any item" % end[2])
                 return ("case", kind, sel, arms, dflt)
             if t[1] == "for":
                 self.take()
